@@ -454,21 +454,23 @@ func (n *Nodis) ZUnion(keys []string, weights []float64, aggregate string) []*zs
 			}
 			zs := m.value.(*zset.SortedSet).ZRange(0, -1)
 			for _, z := range zs {
+				// the weighted score is combined with what the earlier operands contributed
+				ws := z.Score * weight
 				if aggregate == "SUM" || aggregate == "" {
 					if _, ok := items[z.Member]; !ok {
-						items[z.Member] = z.Score * weight
+						items[z.Member] = ws
 					} else {
-						items[z.Member] = items[z.Member]*weight + weight*z.Score
+						items[z.Member] = items[z.Member] + ws
 					}
 				}
 				if aggregate == "MIN" {
-					if _, ok := items[z.Member]; !ok || z.Score < items[z.Member] {
-						items[z.Member] = z.Score * weight
+					if _, ok := items[z.Member]; !ok || ws < items[z.Member] {
+						items[z.Member] = ws
 					}
 				}
 				if aggregate == "MAX" {
-					if _, ok := items[z.Member]; !ok || z.Score > items[z.Member] {
-						items[z.Member] = z.Score * weight
+					if _, ok := items[z.Member]; !ok || ws > items[z.Member] {
+						items[z.Member] = ws
 					}
 				}
 			}
@@ -533,21 +535,22 @@ func (n *Nodis) ZInter(keys []string, weights []float64, aggregate string) []*zs
 					}
 				}
 				if found {
+					ws := z.Score * weight
 					if aggregate == "SUM" || aggregate == "" {
 						if _, ok := items[z.Member]; !ok {
-							items[z.Member] = z.Score * weight
+							items[z.Member] = ws
 						} else {
-							items[z.Member] = items[z.Member]*weight + weight*z.Score
+							items[z.Member] = items[z.Member] + ws
 						}
 					}
 					if aggregate == "MIN" {
-						if _, ok := items[z.Member]; !ok || z.Score < items[z.Member] {
-							items[z.Member] = z.Score * weight
+						if _, ok := items[z.Member]; !ok || ws < items[z.Member] {
+							items[z.Member] = ws
 						}
 					}
 					if aggregate == "MAX" {
-						if _, ok := items[z.Member]; !ok || z.Score > items[z.Member] {
-							items[z.Member] = z.Score * weight
+						if _, ok := items[z.Member]; !ok || ws > items[z.Member] {
+							items[z.Member] = ws
 						}
 					}
 				}
